@@ -33,7 +33,7 @@ func TestC14Enum(t *testing.T) {
 	col := stats.New("C14")
 	col.Sub = "enum"
 	defer finish(t, col)
-	col.Rule = "enum: every implemented encoding (930) x all 256 starting values of R x I in {0x00,0x7F,0x80,0xFF,drawn}, other state drawn by rapid once per round; LD A,R and LD A,I additionally x IFF2 x all 256 F " +
+	col.Rule = "enum: every encoding of the model (936: 930 supported by the pinned tree + 6 undocumented RETN mirrors, skipped where unsupported) x all 256 starting values of R x I in {0x00,0x7F,0x80,0xFF,drawn}, other state drawn by rapid once per round; LD A,R and LD A,I additionally x IFF2 x all 256 F " +
 		"with A and all flags compared (S, Z, 5/3 from the value, H = N = 0, P/V = IFF2, C kept); soup: multi-Step programs incl. block repeats and parked HALT with R and I compared after every Step; " +
 		"non-trivial = start value within 3 of the 0x7F wrap or with bit 7 set; distinct by construction within a round x hash(round state)"
 	rig := newStepRig()
